@@ -117,3 +117,49 @@ def pmap(fn, items, procs=None, chunksize=8):
     ctx = multiprocessing.get_context("fork")
     with ctx.Pool(procs) as pool:
         return pool.map(fn, items, chunksize=chunksize)
+
+
+def decl_sequence(tree, depth=0):
+    """flattened sequence of (kind, depth, salient member names) of a module - for order-sensitive stratification"""
+    out = []
+    for d in tree:
+        if d.get("k") == "namespace":
+            out.append(("namespace", depth, ""))
+            out += decl_sequence(d["items"], depth + 1)
+            out.append(("end-namespace", depth, ""))
+        elif d.get("k") == "class":
+            names = sorted({m["name"] for m in d.get("methods", []) if m["name"] in ("print", "serialize", "insert")})
+            out.append(("class", depth, ",".join(names) + ("+enum" if d.get("enums") else "")))
+        else:
+            out.append((d.get("k"), depth, ""))
+    return out
+
+
+def cover_pairs(cases, rng, n):
+    """greedy choice of n cases covering as many ordered pairs (x before y, was a namespace closed in between?) of
+    declaration shapes as possible: defects that carry state from one declaration to a later one need a particular
+    pair in a particular order"""
+    pool = list(cases)
+    rng.shuffle(pool)
+    feats = []
+    for c in pool:
+        seq = decl_sequence(c["tree"])
+        f = set()
+        for i in range(len(seq)):
+            if seq[i][0] in ("namespace", "end-namespace"):
+                continue
+            for j in range(i + 1, len(seq)):
+                if seq[j][0] in ("namespace", "end-namespace"):
+                    continue
+                crossed = any(seq[k][0] == "end-namespace" for k in range(i + 1, j))
+                f.add(((seq[i][0], seq[i][2]), (seq[j][0], seq[j][2]), crossed, seq[i][1] > 0, seq[j][1] > 0))
+        feats.append(f)
+    chosen, seen = [], set()
+    remaining = set(range(len(pool)))
+    for _ in range(min(n, len(pool))):
+        # pairs separated by the end of a namespace first (that is where generator state is flushed), then the rest
+        best = max(remaining, key=lambda i: (sum(1 for x in feats[i] - seen if x[2]), len(feats[i] - seen)))
+        chosen.append(best)
+        remaining.discard(best)
+        seen |= feats[best]
+    return [pool[i] for i in chosen]
